@@ -788,7 +788,38 @@ def sweep_findings(case, max_findings=4):
                             bad('rows-content-ars', 'row %d of temperature_acceptance is not that of sweep %d' % (r, r),
                                 {'chain': ci})
                             break
+                _sampler_rows_agree(sampler, bad, 'after op %r' % (op,))
+        # directed tail: two segments of EQUAL length separated by clears, the sampler-level history read after
+        # each (the production loop: run, read, checkpoint/clear, run the same number of iterations, read)
+        if len(case.betas) > 1 and not out:
+            m = max(2 * s, 4)
+            for seg in range(2):
+                try:
+                    sampler.clear()
+                    sampler.run(m)
+                except Exception:
+                    break
+                _sampler_rows_agree(sampler, bad, 'equal-length segment %d after a clear' % (seg + 1))
     return out, nsweeps
+
+
+def _sampler_rows_agree(sampler, bad, where):
+    """The swap history read through the sampler is the stack of the chains' own histories."""
+    try:
+        per = [(ch.temperature_swaps, ch.temperature_acceptance) for ch in sampler.chains]
+        ts, ta = sampler.temperature_swaps, sampler.temperature_acceptance
+    except ValueError:
+        return
+    if ts is None or any(p[0] is None for p in per):
+        return
+    want_s = numpy.stack([p[0] for p in per], axis=1)
+    want_a = numpy.stack([p[1] for p in per], axis=1)
+    if ts.shape != want_s.shape or not numpy.array_equal(ts, want_s):
+        bad('sampler-swap-history-differs-from-chains', 'sampler.temperature_swaps is not the stack of the chains\' '
+            'temperature_swaps (%s): shapes %s vs %s' % (where, ts.shape, want_s.shape), None)
+    elif ta.shape != want_a.shape or not numpy.array_equal(ta, want_a, equal_nan=True):
+        bad('sampler-swap-history-differs-from-chains', 'sampler.temperature_acceptance is not the stack of the chains\' '
+            'temperature_acceptance (%s)' % where, None)
 
 
 # --------------------------------------------------------------------------
@@ -1127,25 +1158,33 @@ def ladder_findings(seed, full=False, max_findings=4):
         def __call__(self, x):
             return -math.floor(x * x * 8) / 16.0, 0.0
     ncfg = 40 if full else 10
-    for _ in range(ncfg):
-        nt = rng.choice([2, 3, 4, 5, 6])
+    # the first configurations are directed: ONE numpy array, in every order, handed to a sampler of several
+    # chains with a dynamical annealer (whatever the chains keep of the caller's array must not couple them),
+    # the rest are random
+    directed = [('descending', True), ('descending', False), ('ascending', True), ('shuffled', True)]
+    for icfg in range(ncfg + len(directed)):
+        forced = directed[icfg] if icfg < len(directed) else None
+        nt = rng.choice([2, 3, 4, 5, 6]) if forced is None else rng.choice([3, 4, 5])
         betas = sorted({1.0} | {rng.choice(plumbing.DYADIC_BETAS[1:]) for _ in range(nt - 1)}, reverse=True)
-        if rng.random() < 0.5 and len(betas) > 1:
+        if forced is not None:
+            while len(betas) < 3:
+                betas.append(betas[-1] / 2)
+        if forced is None and rng.random() < 0.5 and len(betas) > 1:
             betas[-1] = 0.0
         # equal betas are legal (levels at the same temperature): the ladder keeps every one of them
-        dup = rng.random() < 0.25 and len(betas) >= 2
+        dup = forced is None and rng.random() < 0.25 and len(betas) >= 2
         if dup:
             betas = sorted(betas + [rng.choice(betas)], reverse=True)
         given = list(betas)
-        order = rng.choice(['descending', 'ascending', 'shuffled'])
+        order = rng.choice(['descending', 'ascending', 'shuffled']) if forced is None else forced[0]
         if order == 'ascending':
             given = given[::-1]
         elif order == 'shuffled':
             rng.shuffle(given)
-        if rng.random() < 0.5:
+        if forced is not None or rng.random() < 0.5:
             given = numpy.array(given)
-        dyn = rng.random() < 0.6 and len(betas) >= 3 and all(b > 0 for b in betas[:-1]) and not dup
-        tmax_prior = rng.random() < 0.6
+        dyn = (rng.random() < 0.6 or forced is not None) and len(betas) >= 3 and all(b > 0 for b in betas[:-1]) and not dup
+        tmax_prior = rng.random() < 0.6 if forced is None else forced[1]
         # (small nu = strong adaptation: with a finite hottest temperature an intermediate beta can drop
         # below the hottest one, and the ladder must then be carried unsorted, as it is)
         ann = DynamicalAnnealer(tau=rng.choice([20, 50, 1000]), nu=rng.choice([2, 4, 10, 0.1, 0.5]), Tmax_prior=tmax_prior) \
@@ -1153,7 +1192,8 @@ def ladder_findings(seed, full=False, max_findings=4):
         s = rng.choice([1, 2, 3])
         cfg = {'given': [float(g) for g in given], 'given_type': type(given).__name__, 'dynamic': dyn, 'Tmax_prior': tmax_prior, 'swap_interval': s}
         try:
-            smp = ParallelTemperedSampler(['x'], M(), rng.choice([1, 2, 3]), given, swap_interval=s,
+            smp = ParallelTemperedSampler(['x'], M(), rng.choice([1, 2, 3]) if forced is None else rng.choice([2, 3]),
+                                          given, swap_interval=s,
                                           proposals=[Normal(['x'], cov=[0.5])], adaptive_annealer=ann,
                                           seed=rng.randrange(1 << 20))
         except Exception as e:
